@@ -620,9 +620,10 @@ example : ¬ (rxTimeoutMs (applyParams defaultMrp (some 1000) none none) localAc
 one session, one counted failure -/
 example : (run {} (honest ++ [.tick 4000, .dead 1])).sessions.length = 1 ∧
     ((run {} (honest ++ [.tick 4000, .dead 1])).window.map (·.failures)) = some 1 := by decide
-/-- … only once, and only within the retransmission ladder -/
+/-- … only once, and only until the latest instant of the `TxTimeout` -/
 example : ((run {} (honest ++ [.dead 1, .dead 1])).window.map (·.failures)) = some 1 := by decide
-example : ((run {} (honest ++ [.tick 5000, .dead 1])).window.map (·.failures)) = some 0 := by decide
+example : txGiveUpMs defaultMrp = 6926 := by decide
+example : ((run {} (honest ++ [.tick 7000, .dead 1])).window.map (·.failures)) = some 0 := by decide
 end Ex2
 
 end C02
